@@ -21,7 +21,7 @@ func (e *Engine) jsonOfValue(st *State, v Value) Term {
 			return a.Data.(Term)
 		}
 	case VNil:
-		return Term{"JNULL", SJson}
+		return mkT("JNULL", SJson)
 	case VIface:
 		switch inner := a.V.(type) {
 		case VAbs:
@@ -91,7 +91,7 @@ func jsonMarshal(e *Engine, st *State, args []Value, depth int, pos string, k fu
 			if mt, ok := iv.Typ.Underlying().(*types.Map); ok {
 				if _, vs, absent, ok := mapSorts(mt); ok && vs == SBytes {
 					e.needXattr = true
-					empty := Term{fmt.Sprintf("((as const (Array Str Bytes)) %s)", absent.S), SXMap}
+					empty := mkT(fmt.Sprintf("((as const (Array Str Bytes)) %s)", absent.S), SXMap)
 					k(st, VTuple{[]Value{sym(App(SBytes, "xmarshal", empty, TTrue)), VNil{}}})
 					return
 				}
@@ -172,7 +172,7 @@ func (e *Engine) feedEvTerm(st *State, v Value) Term {
 	}
 	switch p := v.(type) {
 	case VNil:
-		return Term{"FE_NIL", SFeedEv}
+		return mkT("FE_NIL", SFeedEv)
 	case VPtr:
 		if s, ok := e.load(st, p).(VStruct); ok {
 			return e.feedEvOfStruct(st, s)
